@@ -352,6 +352,8 @@ func checkC19(ctx *Ctx, r *Report, tier string) {
 	checkVertexLockBounds(ctx, r)
 	checkOneLatticeForBothPasses(ctx, r)
 	checkVoxelCornerLattice(ctx, r)
+	checkTreeSettingsInherited(ctx, r)
+	degenerateToleranceZero(ctx, r, "K3", "render/dc")
 	checkPowerOfTwo(ctx, r)
 	checkWarnOnceBlocks(ctx, r)
 	n := 0
@@ -1892,4 +1894,133 @@ func voxelCornersFn(ctx *Ctx) *ssa.Function {
 		}
 	}
 	return out
+}
+
+// checkTreeSettingsInherited (K15): what the octree is built with (conditioning limit, vertex
+// locking, lattice size) is a setting of the whole tree. dcNewOctree puts its parameters into
+// fields of the root; every node Populate creates must carry the same values as its parent -
+// a child literal that leaves one out gets the zero value, and e.g. vertex locking silently
+// stops at the root (leaves place their vertices wherever the QEF puts them).
+func checkTreeSettingsInherited(ctx *Ctx, r *Report) {
+	nfn := ctx.ssaFunc("render/dc", "dcNewOctree")
+	pfn := ctx.ssaFunc("render/dc", "(*dcOctree).Populate")
+	if nfn == nil || pfn == nil {
+		r.undecided("K15", "dcOctree", 0, "dcNewOctree or Populate not found")
+		return
+	}
+	// settings: fields of the root that are a constructor parameter as it is
+	ev0 := newEval(ctx)
+	res0, st0 := ev0.evalRoot(nfn)
+	root, ok := resultObject(res0, st0)
+	if !ok {
+		r.undecided("K15", "dcNewOctree", nfn.Pos(), "the root is not a fresh object")
+		return
+	}
+	params := map[string]bool{}
+	for i := range nfn.Params {
+		params[paramName(nfn, i)] = true
+	}
+	ag, _ := root.(*Agg)
+	var settings []string
+	if ag != nil && ag.T != nil {
+		if stt, ok := ag.T.Underlying().(*types.Struct); ok {
+			for i := 0; i < stt.NumFields() && i < len(ag.Elems); i++ {
+				m := map[string]*Term{}
+				leafTerms("", ag.Elems[i], m)
+				all := len(m) > 0
+				for _, t := range m {
+					if t.Op != "a" || !params[strings.SplitN(t.S, ".", 2)[0]] {
+						all = false
+					}
+				}
+				if all {
+					settings = append(settings, stt.Field(i).Name())
+				}
+			}
+		}
+	}
+	if len(settings) == 0 {
+		r.undecided("K15", "dcNewOctree", nfn.Pos(), "no field of the root is set from a parameter")
+		return
+	}
+	ev := newEval(ctx, "computeOctreeLeaf")
+	ev.evalRoot(pfn)
+	recv := paramName(pfn, 0)
+	bad := ""
+	nChildren := 0
+	for _, e := range ev.Events {
+		if !(strings.HasPrefix(e.Callee, "rec:") && strings.HasSuffix(e.Callee, ".Populate")) && !strings.HasSuffix(e.Callee, ".computeOctreeLeaf") {
+			continue
+		}
+		var child Val
+		switch a := e.Args[0].(type) {
+		case *Ptr:
+			if a.Obj != nil {
+				child = getPath(e.State.mem[a.Obj], a.Path)
+			}
+		case *Tuple:
+			if len(a.Elems) == 2 {
+				child = a.Elems[1]
+			}
+		}
+		if child == nil {
+			continue
+		}
+		nChildren++
+		for _, f := range settings {
+			cv, ok := fieldOf(child, f)
+			if !ok {
+				continue
+			}
+			m := map[string]*Term{}
+			leafTerms("", cv, m)
+			for k, t := range m {
+				want := recv + "." + f + k
+				if t.Key() != want && !strings.Contains(bad, " "+f+" ") {
+					bad += fmt.Sprintf(" %s of a child is %s, the parent's is %s;", f, shortKey(t.Key(), 60), want)
+				}
+			}
+		}
+	}
+	if nChildren == 0 {
+		r.undecided("K15", "Populate", pfn.Pos(), "no child node found")
+		return
+	}
+	sort.Strings(settings)
+	r.check("K15", "Populate|children-carry-the-tree's-settings", pfn.Pos(), bad == "", fmt.Sprintf("settings %v on %d child events;%s", settings, nChildren, bad))
+	r.floor("K15", 1)
+}
+
+// degenerateToleranceZero: the filters that drop degenerate primitives before emission compare
+// vertices for identity (tolerance 0). With a positive tolerance a primitive whose vertices are
+// distinct but close is dropped as well and its neighbours lose the edges they shared with it.
+func degenerateToleranceZero(ctx *Ctx, r *Report, rule string, pkgs ...string) {
+	n := 0
+	for _, fn := range ctx.srcFuncs(pkgs...) {
+		if len(fn.Blocks) == 0 {
+			continue
+		}
+		k := 0
+		allInstrs(fn, func(_ *ssa.BasicBlock, ins ssa.Instruction) {
+			c, ok := ins.(*ssa.Call)
+			if !ok {
+				return
+			}
+			g := c.Call.StaticCallee()
+			if g == nil || g.Name() != "Degenerate" || !inModule(g) || len(c.Call.Args) != 2 {
+				return
+			}
+			k++
+			n++
+			kc, isC := c.Call.Args[1].(*ssa.Const)
+			zero := false
+			if isC && kc.Value != nil {
+				if q, ok := constantToRat(kc.Value); ok && q.Sign() == 0 {
+					zero = true
+				}
+			}
+			r.check(rule, fmt.Sprintf("%s|Degenerate#%d|tolerance-0", shortFn(fn), k), c.Pos(), zero, "the degenerate filter tests for identical vertices; tolerance argument: "+c.Call.Args[1].String())
+		})
+	}
+	r.Counts["degenerate_filters"] += n
 }
